@@ -455,11 +455,15 @@ def model_raw(s: str) -> Any:
 
 # ------------------------------------------------------------------ stage C (i): raw C primitives vs model
 
-def raw_stage(ctx: vlib.Ctx, model: Model, rawdir: str, rng: vlib.Rng) -> None:
+def load_raw(rawdir: str) -> Any:
     sys.path.insert(0, rawdir)
     import importlib
     raw = importlib.import_module("c15raw")
     assert raw.__file__.startswith(rawdir)
+    return raw
+
+
+def raw_stage(ctx: vlib.Ctx, model: Model, raw: Any, rng: vlib.Rng) -> None:
     B = boundary_ints()
     nr = ctx.n(4000, 60000)
     lines: list[str] = []
@@ -536,6 +540,7 @@ def raw_stage(ctx: vlib.Ctx, model: Model, rawdir: str, rng: vlib.Rng) -> None:
     ctx.sample({"raw": desc[len(desc) // 7], "model": out[len(out) // 7], "c": repr(got[len(got) // 7])})
     # floats: raw primitive vs CPython (no model)
     fbad = 0
+    ntd = 0
     fl = float_values(rng, ctx.n(60, 400))
     nfl = 0
     for x in fl:
@@ -561,9 +566,13 @@ def raw_stage(ctx: vlib.Ctx, model: Model, rawdir: str, rng: vlib.Rng) -> None:
             nfl += 1
             if g != e:
                 key = f"float-raw:truediv:{a}:{b}"
-                if abs(a) < 2 ** 62 and abs(b) < 2 ** 62 and (abs(a) > 2 ** 53 or abs(b) > 2 ** 53):
+                ntd += 1
+                if abs(a) < 2 ** 62 and abs(b) < 2 ** 62 and (abs(a) > 2 ** 53 or abs(b) > 2 ** 53) and not e.startswith("E ") \
+                        and "F " + str(g) == _pred_truediv(a, b):
                     key = "int-truediv:double-rounding-above-2^53"
-                ctx.violation(key, f"CPyTagged_TrueDivide({a},{b}) gives {g}, CPython {e} (both operands converted to double before dividing: rounds twice)",
+                if key.startswith("float-raw") and ntd > 40:
+                    continue
+                ctx.violation(key, f"CPyTagged_TrueDivide({a},{b}) gives {g}, CPython {e}",
                               {"kind": "float_raw", "op": "truediv", "a": str(a), "b": str(b), "lib_rt": g, "cpython": e,
                                "repro": f"compile `def f(a: int, b: int) -> float: return a / b` with mypyc; f({a}, {b}).hex() vs ({a} / {b}).hex()"})
         try:
@@ -735,27 +744,44 @@ def model_line(f: dict[str, Any], a: list[Any]) -> str | None:
     return None
 
 
-def classify(f: dict[str, Any], a: list[Any], name: str) -> tuple[str, str] | None:
-    """Stable key + description for the classes of violations found on the unchanged tree (one key per class, so
-    that any violation outside these classes is still reported individually)."""
+def _pred_truediv(a: int, b: int) -> str:
+    """What `(double)a / (double)b` gives (the defect: both operands rounded to double first)."""
+    try:
+        return "F " + (float(a) / float(b)).hex()
+    except Exception as e:  # noqa
+        return "E " + type(e).__name__
+
+
+def _pred_int_float_cmp(name: str, a: list[Any]) -> str:
+    """What the comparison gives when the int operand is converted to double first."""
+    import operator
+    op = operator.eq if "_eq_" in name else operator.lt
+    try:
+        xs = [float(x) if isinstance(x, int) else float.fromhex(x) for x in a]
+        return "B 1" if op(xs[0], xs[1]) else "B 0"
+    except Exception as e:  # noqa
+        return "E " + type(e).__name__
+
+
+def classify(f: dict[str, Any], a: list[Any], name: str, comp: str = "", ref: str = "") -> tuple[str, str] | None:
+    """Stable key + description for the classes of violations found on the unchanged tree (one key per class).
+    A class is only recognised when the operands are in the class AND the compiled result is exactly the value the
+    diagnosed cause predicts; any other disagreement keeps its own key (function + operands) and is reported."""
     T, op = f.get("T"), f.get("op")
     if T in FW and op in ("shl", "shr") and f["kind"] in ("bin", "mixed", "lit"):
         cnt = int(a[1]) if len(a) == 2 else (f["k"] if f["side"] == "r" else int(a[0]))
-        if f["kind"] == "lit" and f["side"] == "l" and BITS[T] > 32 and 31 <= cnt < BITS[T]:
-            return ("native-shift:int-literal-left-operand-evaluated-in-32-bits",
-                    "`<literal> << x` / `<literal> >> x` with x: i64 is emitted as a C shift of a plain `int` literal, so counts 31..63 give a wrong value")
         if cnt < 0:
             return ("native-shift:negative-count", "native-int shift by a negative count does not raise ValueError (C undefined behaviour)")
         if cnt >= BITS[T]:
             return ("native-shift:count>=width", "native-int shift by a count >= the type width is C undefined behaviour (x86: count taken modulo the width) although the exact result fits")
-    if name in ("f_int_truediv",) or (f["kind"] == "floatint" and "truediv" in name):
-        xs = [int(x) for x in a if isinstance(x, int)]
-        if all(abs(x) < 2 ** 62 for x in xs) and any(abs(x) > 2 ** 53 for x in xs):
+    if name == "f_int_truediv":
+        xs = [int(x) for x in a]
+        if all(abs(x) < 2 ** 62 for x in xs) and any(abs(x) > 2 ** 53 for x in xs) and ref.startswith("F ") and comp == _pred_truediv(*xs):
             return ("int-truediv:double-rounding-above-2^53",
                     "int / int on short ints converts both operands to double first (CPyTagged_TrueDivide), which rounds twice when an operand exceeds 2^53; CPython rounds once")
     if f["kind"] == "floatint" and f["ret"] == "bool":
         xs = [int(x) for x in a if isinstance(x, int)]
-        if any(abs(x) > 2 ** 53 for x in xs):
+        if any(abs(x) > 2 ** 53 for x in xs) and ref.startswith("B ") and comp == _pred_int_float_cmp(name, a):
             return ("int-float-comparison:int-operand-converted-to-double",
                     "comparing an int with a float converts the int to double first (rounding, or OverflowError beyond 2^1024); CPython compares exactly")
     return None
@@ -801,16 +827,50 @@ def oracle(f: dict[str, Any], a: list[Any], comp: str, ref: str) -> tuple[bool, 
     return comp == ref, ""
 
 
-def module_stage(ctx: vlib.Ctx, bld: Build, model: Model | None, rng: vlib.Rng) -> None:
+def enc_raw(g: Any) -> str:
+    if isinstance(g, float):
+        return "F " + g.hex()
+    if isinstance(g, tuple):
+        return "I %d" % g[-1]
+    return str(g)
+
+
+def raw_float_prim(raw: Any, name: str, a: list[Any]) -> str | None:
+    """The lib-rt primitive behind a float-related compiled function, called directly on the same operands."""
+    if name == "f_int_truediv":
+        return enc_raw(raw.op2("truediv", a[0], a[1]))
+    if name == "f_from_int":
+        return enc_raw(raw.op1("tofloat", a[0]))
+    if name == "f_to_int":
+        return enc_raw(raw.flt("toint", float.fromhex(a[0])))
+    if name == "f_fdiv":
+        return enc_raw(raw.flt("floordiv", float.fromhex(a[0]), float.fromhex(a[1])))
+    return None
+
+
+FLOAT_KINDS = ("float", "float_to_fw", "intfloat", "floatint")
+
+
+def module_stage(ctx: vlib.Ctx, bld: Build, model: Model | None, rng: vlib.Rng, raw: Any = None, dirs: list[str | None] | None = None) -> None:
     fn = bld.fn
     cases = make_cases(ctx, fn, rng)
     total = sum(len(v) for v in cases.values())
     ctx.log(f"module: {len(fn)} compiled functions, {total} calls per opt level")
     opts = ["0", "3"]
-    t = time.time()
-    with ThreadPoolExecutor(max_workers=2) as ex:
-        dirs = list(ex.map(bld.build_mod, opts))
-    ctx.log(f"mypyc builds (opt 0 and 3): {time.time()-t:.1f}s")
+    if dirs is None:
+        t = time.time()
+        with ThreadPoolExecutor(max_workers=2) as ex:
+            dirs = list(ex.map(bld.build_mod, opts))
+        ctx.log(f"mypyc builds (opt 0 and 3): {time.time()-t:.1f}s")
+    # floats: the lib-rt primitive on the same operands (third leg of the three-way comparison)
+    prim: dict[tuple[str, int], str] = {}
+    if raw is not None:
+        for name in ("f_int_truediv", "f_from_int", "f_to_int", "f_fdiv"):
+            for i, a in enumerate(cases[name]):
+                pv = raw_float_prim(raw, name, a)
+                if pv is not None:
+                    prim[(name, i)] = pv
+    n3 = n2 = nbad3 = 0
     # model predictions (independent of opt level)
     mlines: list[str] = []
     mkeys: list[tuple[str, int]] = []
@@ -829,6 +889,7 @@ def module_stage(ctx: vlib.Ctx, bld: Build, model: Model | None, rng: vlib.Rng) 
         ctx.log(f"model: {len(mlines)} predictions in {time.time()-t:.1f}s")
     nontriv: set[tuple] = set()
     dist: dict[str, int] = {}
+    per_fn: dict[str, int] = {}
     for opt, d in zip(opts, dirs):
         if d is None:
             continue
@@ -845,7 +906,7 @@ def module_stage(ctx: vlib.Ctx, bld: Build, model: Model | None, rng: vlib.Rng) 
             for i, (a, (comp, ref)) in enumerate(zip(cs, rs)):
                 # ---- S: the property's own oracle, compiled vs CPython
                 ok, why = oracle(f, a, comp, ref)
-                cls = classify(f, a, name)
+                cls = classify(f, a, name, comp, ref) if not ok or f.get('op') in ('shl', 'shr') else None
                 if not ok:
                     if cls is not None:
                         key = cls[0]
@@ -853,9 +914,26 @@ def module_stage(ctx: vlib.Ctx, bld: Build, model: Model | None, rng: vlib.Rng) 
                     else:
                         key = f"{name}:{','.join(str(x) for x in a)}"
                         what = f"{name}{tuple(a)} [`{f['expr']}`, opt {opt}] compiled -> {comp}, CPython -> {ref} ({why})"
+                    if cls is None:
+                        per_fn[name] = per_fn.get(name, 0) + 1
+                        if per_fn[name] > 20:        # at most 20 replay files per compiled function
+                            ctx.add("violations_beyond_per_function_cap")
+                            continue
                     ctx.violation(key, what, {"kind": "compiled_vs_cpython", "function": name, "expr": f["expr"], "arg_types": f["args"],
                                               "ret": f["ret"], "args": [str(x) for x in a], "opt": opt, "compiled": comp, "cpython": ref,
                                               "source": f"def {name}(...) -> {f['ret']}: return {f['expr']}"})
+                # ---- floats: compiled vs lib-rt primitive vs CPython (by float.hex(); no model)
+                if f["kind"] in FLOAT_KINDS:
+                    pv = prim.get((name, i))
+                    if pv is None:
+                        n2 += 1
+                    else:
+                        n3 += 1
+                        same = pv == comp or (pv.startswith("E ") and comp.startswith("E "))
+                        if not same:
+                            nbad3 += 1
+                            if nbad3 <= 5:
+                                ctx.broke("C", f"float three-way (opt {opt})", f"{name}{tuple(a)}: compiled {comp}, lib-rt primitive {pv}, CPython {ref}")
                 # ---- C: model vs compiled
                 m = mout.get((name, i))
                 if m is not None and cls is None:      # inside a reported finding class the model is not compared
@@ -887,6 +965,9 @@ def module_stage(ctx: vlib.Ctx, bld: Build, model: Model | None, rng: vlib.Rng) 
                 j = len(cs) // 3
                 ctx.sample({"fn": nm, "expr": fn[nm]["expr"], "args": [str(x)[:30] for x in cs[j]], "compiled": res[nm][j][0][:40], "cpython": res[nm][j][1][:40],
                             "model": mout.get((nm, j), "-")[:80]})
+    ctx.cov["float_cases_three_way_compiled_primitive_cpython"] = n3
+    ctx.cov["float_cases_two_way_compiled_cpython"] = n2
+    ctx.cov["float_three_way_disagreements_compiled_vs_primitive"] = nbad3
     ctx.cov["distinct_nontrivial"] = ctx.cov.get("distinct_nontrivial", 0) + len(nontriv)
     ctx.cov["input_distribution"] = {"calls_per_kind_both_opts": dist, "functions": len(fn), "boundary_values": len(boundary_ints())}
 
@@ -910,21 +991,30 @@ def run(ctx: vlib.Ctx) -> None:
         "refcounts / memory safety of the primitives are out of scope here (C06)",
         "extraction: ExtrOcamlBasic only; driver tools/ocaml/c15_driver.ml + zio.ml (I/O only); raw extension RAW_C_SRC in tools/harness/C15.py (marshalling only)",
     ]
-    ctx.prove("C15/Properties.v", ["C15", "lib"])
-    exe = vlib.build_extracted("c15", "C15/Extract.v", "tools/ocaml/c15_driver.ml")
-    model = Model(exe) if exe else None
-    if exe is None:
-        ctx.broke("C", "extraction", "extracted model does not build")
     bld = Build(ctx)
+    pool = ThreadPoolExecutor(max_workers=3)
     try:
-        t = time.time()
-        rawdir = bld.build_raw()
-        ctx.log(f"raw lib-rt extension built in {time.time()-t:.1f}s")
-        if rawdir and model:
-            raw_stage(ctx, model, rawdir, vlib.Rng(ctx.seed, "raw"))
+        # the C builds do not depend on the proofs: start them first, they run while Coq checks the theorems
+        t0 = time.time()
+        fut_raw = pool.submit(bld.build_raw)
+        fut_mods = [pool.submit(bld.build_mod, o) for o in ("0", "3")]
+        ctx.prove("C15/Properties.v", ["C15", "lib"])
+        exe = vlib.build_extracted("c15", "C15/Extract.v", "tools/ocaml/c15_driver.ml")
+        model = Model(exe) if exe else None
+        if exe is None:
+            ctx.broke("C", "extraction", "extracted model does not build")
+        rawdir = fut_raw.result()
+        raw = load_raw(rawdir) if rawdir else None
+        if raw is not None and model:
+            raw_stage(ctx, model, raw, vlib.Rng(ctx.seed, "raw"))
             ctx.log(f"raw stage: {ctx.cov.get('raw_c_cases')} cases, {ctx.cov.get('raw_c_disagreements')} disagreements")
-        module_stage(ctx, bld, model, vlib.Rng(ctx.seed, "module"))
+        dirs = [f.result() for f in fut_mods]
+        ctx.log(f"raw extension + mypyc builds (opt 0 and 3) ready {time.time()-t0:.1f}s after start")
+        module_stage(ctx, bld, model, vlib.Rng(ctx.seed, "module"), raw, dirs)
+        ctx.cov["float_cases_total"] = (ctx.cov.get("float_raw_cases", 0) + ctx.cov.get("float_cases_three_way_compiled_primitive_cpython", 0)
+                                        + ctx.cov.get("float_cases_two_way_compiled_cpython", 0))
     finally:
+        pool.shutdown(wait=True)
         bld.cleanup()
 
 
